@@ -83,7 +83,7 @@ theorem recover_idempotent (ops : List Op) (now now' : Nat)
   intro id
   have hS2 := (recoverV_good hinv1.1).sync
   simp only [State.get, f3, f1, hV]
-  rw [get_of_sync (w := { s1.w with off := false, metaStale := false, preFail := false }) hS2 rfl, get_of_sync hS1 hoff]
+  rw [get_of_sync (w := { s1.w with off := false, metaStale := false, preFail := false, ixStale := [] }) hS2 rfl, get_of_sync hS1 hoff]
 
 /-! ## acknowledged writes, the write in flight -/
 
@@ -195,6 +195,10 @@ theorem stored_doc_stable (ops1 ops2 : List Op) (id : Nat) (d : Doc)
     | saveExt => rcases step_docs .saveExt hinv id with h | ⟨x, he, _⟩
                  · rw [h]; exact hd
                  · simp [effect] at he
+    | compact ix c dd =>
+      rcases step_docs (.compact ix c dd) hinv id with h | ⟨x, he, _⟩
+      · rw [h]; exact hd
+      · simp [effect] at he
     | reopen now => rcases step_docs (.reopen now) hinv id with h | ⟨x, he, _⟩
                     · rw [h]; exact hd
                     · simp [effect] at he
@@ -250,6 +254,7 @@ theorem removed_stays_removed (ops1 ops2 : List Op) (id : Nat) (now : Nat)
         | flush now => simp [effect] at he
         | close now => simp [effect] at he
         | saveExt => simp [effect] at he
+        | compact ix c d => simp [effect] at he
         | reopen now => simp [effect] at he
         | arm l => simp [effect] at he
   obtain ⟨V, hV, hal, hoff, hdocs, _⟩ := recovery_converges (ops1 ++ ops2) now hok
@@ -258,7 +263,98 @@ theorem removed_stays_removed (ops1 ops2 : List Op) (id : Nat) (now : Nat)
   simp only [State.get, hV]
   rw [get_of_sync (hinv.2 V hV hal) hoff, hdocs, hst]
 
+/-- `op` only retries recovery: a reboot+reopen or a change of the fault schedule -/
+def Op.isRecoveryAttempt : Op → Bool
+  | .reopen _ => true
+  | .arm _ => true
+  | _ => false
+
+/-- "A crash in the middle of a previous recovery": any number of recovery attempts, each cut by
+any fault anywhere (or not at all), leave every document object untouched, and the first reopen
+that succeeds answers every `get` exactly from the documents that were stored when the first crash
+happened — interrupted recoveries do not matter. -/
+theorem recovery_attempts_do_not_matter (ops rs : List Op) (now : Nat)
+    (hrs : ∀ op ∈ rs, op.isRecoveryAttempt = true)
+    (hok : (step (run init (ops ++ rs)) (.reopen now)).2 = .ok) (id : Nat) :
+    (run init (ops ++ rs)).w.D.docs = (run init ops).w.D.docs ∧
+    (step (run init (ops ++ rs)) (.reopen now)).1.get id =
+      match (run init ops).w.D.docs id with
+      | some d => .okDoc (some d)
+      | none => .errNotFound := by
+  have hdocs : (run init (ops ++ rs)).w.D.docs = (run init ops).w.D.docs := by
+    clear hok
+    rw [run_append]
+    have hinv := durable_invariant_every_cut ops
+    generalize run init ops = s at *
+    induction rs generalizing s with
+    | nil => rfl
+    | cons op r ih =>
+      simp only [run]
+      rw [ih (fun o ho => hrs o (by simp [ho])) (step s op).1 (step_inv op hinv)]
+      funext j
+      rcases step_docs op hinv j with h | ⟨x, he, _⟩
+      · exact h
+      · have := hrs op (by simp)
+        cases op <;> simp [Op.isRecoveryAttempt, effect] at this he
+  refine ⟨hdocs, ?_⟩
+  rw [reopen_get (durable_invariant_every_cut _) now hok, hdocs]
+  cases (run init ops).w.D.docs id <;> rfl
+
+/-- "In the middle of an index compaction": a compaction interrupted by ANY fault schedule (power
+loss before, at or after its manifest commit, a commit that lands but reports failure …) changes no
+document object, leaves the durable state recoverable, and the next fault-free reopen succeeds and
+returns every stored document intact. (Compaction is an operation of the machine, so all the other
+theorems of this file also quantify over histories containing it.) -/
+theorem compaction_interrupted_recovers (ops : List Op) (ix : Nat) (commits dirtied : Bool) (sched : List Fault)
+    (now : Nat) (id : Nat) :
+    (step (run init (ops ++ [.arm sched, .compact ix commits dirtied, .arm []])) (.reopen now)).2 = .ok ∧
+    (step (run init (ops ++ [.arm sched, .compact ix commits dirtied, .arm []])) (.reopen now)).1.get id =
+      match (run init ops).w.D.docs id with
+      | some d => .okDoc (some d)
+      | none => .errNotFound := by
+  have hok : (step (run init (ops ++ [.arm sched, .compact ix commits dirtied, .arm []])) (.reopen now)).2 = .ok := by
+    have := recovery_total (ops ++ [.arm sched, .compact ix commits dirtied]) now
+    simpa [List.append_assoc] using this
+  refine ⟨hok, ?_⟩
+  rw [reopen_get (durable_invariant_every_cut _) now hok]
+  have hd : (run init (ops ++ [.arm sched, .compact ix commits dirtied, .arm []])).w.D.docs = (run init ops).w.D.docs := by
+    rw [run_append]
+    have hinv := durable_invariant_every_cut ops
+    generalize run init ops = s at *
+    simp only [run]
+    have h1 : Inv (step s (.arm sched)).1 := step_inv _ hinv
+    have h2 : Inv (step (step s (.arm sched)).1 (.compact ix commits dirtied)).1 := step_inv _ h1
+    funext j
+    rcases step_docs (.arm []) h2 j with h | ⟨x, he, _⟩
+    · rw [h]
+      rcases step_docs (.compact ix commits dirtied) h1 j with h' | ⟨x, he, _⟩
+      · rw [h']; rfl
+      · simp [effect] at he
+    · simp [effect] at he
+  rw [hd]
+  cases (run init ops).w.D.docs id <;> rfl
+
 /-! ## ids -/
+
+/-- an acknowledged add never lands on an id that already has a durable document object — in any
+reachable state, in particular right after any recovery: a recovered collection never hands out an
+id a stored document already owns -/
+theorem acked_add_fresh (ops : List Op) (d : Doc) (id : Nat)
+    (hack : (step (run init ops) (.add d)).2 = .okId id) :
+    (run init ops).w.D.docs id = none := by
+  have hinv := durable_invariant_every_cut ops
+  generalize run init ops = s at *
+  simp only [step, lift] at hack
+  cases hh : s.h with
+  | none => simp [hh] at hack
+  | some v =>
+    simp only [hh] at hack
+    obtain ⟨hid, _, hdead⟩ := (addOp_docs s.w v d).2.2 id hack
+    have hS := hinv.2 v hh hdead
+    cases hd : s.w.D.docs id with
+    | none => rfl
+    | some x => have := hS.docs_le_max id (by simp [hd]); omega
+
 
 /-- `id_not_reused`: an id that held a document when a flush was acknowledged is never returned by
 any later add — after any continuation, any crashes, any recoveries. -/
@@ -362,5 +458,13 @@ example : outs init [.arm [.ok, .unknown], .add docA, .add docB, .flush 100] =
 remove 2, crash, recover — the next add gets 3, not 2 -/
 example : outs init [.add docA, .add docB, .flush 100, .remove 2, .reopen 1, .add docB] =
     [.okId 1, .okId 2, .okBool true, .okDoc (some docB), .ok, .okId 3] := by decide
+
+/-- a compaction whose manifest commit lands but reports failure: no poison, the stale manifest
+version makes the next flush fail with a rejected conditional PUT (and poison), the reopen recovers -/
+example : outs init [.add docA, .flush 100, .arm [.unknown], .compact 0 true, .add docB, .flush 101, .reopen 1,
+      .add docB] =
+    [.okId 1, .okBool true, .ok, .errIo, .okId 2, .errPre, .ok, .okId 3] := by decide
+example : (run init [.add docA, .flush 100, .arm [.unknown], .compact 0 true, .add docB, .flush 101, .reopen 1]).get 2
+    = .okDoc (some docB) := by decide
 
 end AndaVerif.Durability
